@@ -62,13 +62,13 @@ PROPS = {
         ],
     },
     "C04": {
-        "modules": ["SamlModel.Props.C04", "SamlModel.Props.HandlerGen", "SamlModel.Props.SendBack", "SamlModel.Props.Stateless"],
-        "translated": ["BuildRedirectQuery", "getResponseCert"],
+        "modules": ["SamlModel.Props.C04", "SamlModel.Props.HandlerGen", "SamlModel.Props.SendBack", "SamlModel.Props.RedirectSignGen", "SamlModel.Props.Stateless"],
+        "translated": ["createRedirectSignature", "BuildRedirectQuery", "getResponseCert"],
         "trusted_base": COMMON_TRUST + CB_TRUST + [
             "RSA / SHA are not modelled: C04_redirect_query states that an independent verifier recovers exactly the signed octets, the algorithm URI and the signature bytes from the query sent; that rsa.VerifyPKCS1v15 then accepts is the law verify(pk, m, sign(sk, m)) of the scheme, observed with real keys on every redirect reply",
             "Lib.Url (QueryUnescape, the saml-bindings 3.4.4.1 verifier over the raw query) is written from the specification; it is compared on every run with net/url and with the harness's independent Go verifier (`lib qunesc`, `lib rverify`), also on the queries the real BuildRedirectQuery assembles from random values",
             "enveloped XML-DSig: signing is done by amdonov/xmlsig v0.1.0 and verification by goxmldsig v1.4.0 + etree (pinned: C04_source_current); the theorems cover only the rendering of text nodes and attribute values by both sides (Lib.C14n, compared with etree's canonical writer and with the digest xmlsig computes over a marker element: `lib c14n`); namespace handling, attribute ordering and the rest of the two canonicalisers are sampled through goxmldsig's verdict on every emitted assertion / metadata document, which must agree case by case with the model's prediction (verifies iff every signed text and attribute value is free of the special characters)",
-            "createSignature / createPostSignature / createRedirectSignature / sendBackResponse / Provider.GetMetadata are hand-modelled (Model.Callback.sigStyle, Model.Metadata) and fingerprinted (C04_source_current)",
+            "createRedirectSignature is translated (standalone): C04.createRedirectSignature_signs - a returned signature is base64 of what signature.CreateRedirect produced over exactly C04.signedOctets (BuildRedirectQuery of the deflated message, RelayState and algorithm), the returned algorithm is the configured one; createSignature and sendBackResponse are translated too (CallbackGen, SendBack); createPostSignature and the metadata signature are oracles of the translated callers (fingerprints: C04_source_current)",
         ],
         "assumptions": ["the certificate the IdP publishes is the one GetResponseSigningKey returns (C11_one_certificate); signed metadata is verified against the published certificate, the harness storage uses one key pair for responses and metadata",
                         "a registered consumer URL contains no '#' (a fragment would swallow the query); URLs with an own query are covered by C04_redirect_url_with_query under the stated hypothesis that they do not themselves carry a SAMLResponse / RelayState / SigAlg / Signature parameter"],
